@@ -748,7 +748,7 @@ def run_shard(spec, ctx):
     if kind == "main":
         run_given(cases("main"), body, ctx, ctx.pick(250, 1500))
     elif kind == "multi":
-        run_given(multi_cases("make_sequence"), body, ctx, ctx.pick(250, 3000))
+        run_given(multi_cases("make_sequence"), body, ctx, ctx.pick(150, 3000))
     elif kind == "multih":
         run_given(multi_cases("header_unit"), body, ctx, ctx.pick(2000, 15000))
     elif kind == "real0":
@@ -756,7 +756,7 @@ def run_shard(spec, ctx):
     elif kind == "real0h":
         run_given(real0_cases("header_unit"), body, ctx, ctx.pick(5000, 15000))
     elif kind == "diag":
-        run_given(cases("diag"), body, ctx, ctx.pick(300, 600))
+        run_given(cases("diag"), body, ctx, ctx.pick(200, 600))
     elif kind == "real":
         run_given(real_cases((1,), max_base=ctx.pick(2, 4)), body, ctx, ctx.pick(10, 100))
     elif kind == "real2":
